@@ -66,6 +66,9 @@ pub enum CaseDesc {
     },
     /// chain of `depth` nested Folders (XML recursion depth)
     Chain { depth: usize },
+    /// `n` same-class children of one Folder (wide columns, long referent arrays): each carries an
+    /// Int32, a String, a Ref to another sibling and one of three SharedStrings
+    Wide { n: usize },
     /// one instance whose *name* is the given text-alphabet entry
     Name { label: String },
 }
@@ -201,6 +204,23 @@ pub fn build_plan(desc: &CaseDesc, codec: Codec) -> Plan {
                     Some(v) => RootSel::Nodes(v.clone()),
                 },
             }
+        }
+        CaseDesc::Wide { n } => {
+            let mut nodes = vec![PNode { class: "Folder".to_owned(), name: "top".to_owned(), parent: None, props: vec![] }];
+            for i in 0..*n {
+                nodes.push(PNode {
+                    class: "ZzUnknown".to_owned(),
+                    name: format!("w{}", i),
+                    parent: Some(0),
+                    props: vec![
+                        ("I".to_owned(), PVal::V(Variant::Int32((i as i32) * 7919 - 100_000))),
+                        ("S".to_owned(), PVal::V(Variant::String(format!("s{}", i % 11)))),
+                        ("R".to_owned(), PVal::Ref(Tgt::Node(1 + (i * 37 + 11) % *n))),
+                        ("Sh".to_owned(), PVal::Shared(format!("shared-{}", i % 3).into_bytes())),
+                    ],
+                });
+            }
+            Plan { nodes, roots: RootSel::Nodes(vec![0]) }
         }
         CaseDesc::Chain { depth } => {
             let nodes = (0..*depth)
@@ -933,6 +953,7 @@ pub fn label_of(desc: &CaseDesc) -> String {
         CaseDesc::Value { ty, labels, mode } => format!("{}|{:?}|{}", ty, mode, labels.join("+")),
         CaseDesc::Topo { feature, .. } => format!("topo|{:?}", feature).chars().take(40).collect(),
         CaseDesc::Chain { depth } => format!("chain|{}", depth),
+        CaseDesc::Wide { n } => format!("wide|{}", n),
         CaseDesc::Name { label } => format!("name|{}", label),
     }
 }
@@ -955,6 +976,7 @@ pub fn class_of(desc: &CaseDesc) -> String {
             format!("topo:{}:{}", f, if roots.is_none() { "domroot" } else { "subtrees" })
         }
         CaseDesc::Chain { .. } => "chain".to_owned(),
+        CaseDesc::Wide { .. } => "wide".to_owned(),
         CaseDesc::Name { .. } => "name".to_owned(),
     }
 }
